@@ -144,7 +144,8 @@ ParsedDefects(D, S) ==
 (* each filled with the universe of its index (first index fastest; 0 =    *)
 (* the lattice cell's own universe, i.e. the element keeps the material)   *)
 (* and each placing that universe by  x = shift(idx) + T(x_inner),  T the  *)
-(* FILL transformation of the lattice cell, else its TRCL, else identity.  *)
+(* FILL transformation of the element (McnpSem!ElemHasFtr), else the TRCL  *)
+(* of the lattice cell, else identity.                                     *)
 (* Decks with exactly one lattice cell; S.elems = the recorded new cells.  *)
 (***************************************************************************)
 LatticeDefects(D, S) ==
@@ -152,9 +153,9 @@ LatticeDefects(D, S) ==
   IN IF Cardinality(lats) # 1 THEN {}
      ELSE
        LET c == D.cells[CHOOSE i \in lats : TRUE]
-           T == IF c.hasftr THEN c.ftr ELSE IF c.hastrcl THEN c.trcl ELSE IdTr
+           T(idx) == IF ElemHasFtr(c, idx) THEN c.ftr ELSE IF c.hastrcl THEN c.trcl ELSE IdTr
            univ(idx) == c.lunivs[PosInArray(c, idx)]
-           expected == { [o2 |-> [i \in 1..3 |-> LatShift(c, idx)[i] + 2 * T.o[i]], m |-> T.m,
+           expected == { [o2 |-> [i \in 1..3 |-> LatShift(c, idx)[i] + 2 * T(idx).o[i]], m |-> T(idx).m,
                           fill |-> IF univ(idx) = c.u THEN 0 ELSE univ(idx)] :
                          idx \in { x \in IdxSet(c) : univ(x) # 0 } }
            recorded == { [o2 |-> S.elems[i].o2, m |-> S.elems[i].m, fill |-> S.elems[i].fill] : i \in 1..Len(S.elems) }
